@@ -82,7 +82,11 @@ impl One {
         One::with_mtu(rx, tx, seed, 1500)
     }
     pub fn with_mtu(rx: usize, tx: usize, seed: u64, mtu: usize) -> One {
+        One::with_mtu_burst(rx, tx, seed, mtu, None)
+    }
+    pub fn with_mtu_burst(rx: usize, tx: usize, seed: u64, mtu: usize, burst: Option<usize>) -> One {
         let mut dev = SimDevice::new(Medium::Ip, mtu);
+        dev.max_burst = burst;
         let mut c = Config::new(HardwareAddress::Ip);
         c.random_seed = seed;
         let mut iface = Interface::new(c, &mut dev, Instant::from_micros(0));
@@ -186,6 +190,10 @@ pub struct RxCfg {
     /// the peer's SYN already carries the first `syn_data` octets of its stream (legal, RFC 9293
     /// 3.10.7.2: they may be kept or ignored, but what is ignored must not be acknowledged)
     pub syn_data: usize,
+    /// DeviceCapabilities::max_burst_size (the interface then clamps the window field on the
+    /// wire without the socket knowing); signatures get the suffix /burst-limited-device
+    pub burst: Option<usize>,
+    pub mtu: usize,
 }
 
 #[derive(Clone, Debug, PartialEq)]
@@ -301,7 +309,7 @@ impl Harness for Rx {
     type Cfg = RxCfg;
     type Ev = RxEv;
     fn new(cfg: &RxCfg) -> Rx {
-        let mut w = One::new(cfg.rx, 64, 0x77);
+        let mut w = One::with_mtu_burst(cfg.rx, 64, 0x77, cfg.mtu, cfg.burst);
         let p = cfg.peer_isn;
         let ws_opt: Vec<u8> = if cfg.wscale { vec![2, 4, 5, 180, 3, 3, cfg.peer_ws, 1] } else { vec![2, 4, 5, 180] };
         if cfg.reuse {
@@ -491,6 +499,13 @@ impl Harness for Rx {
                 }
             }
         }
+        if self.cfg.burst.is_some() {
+            for v in self.pending.iter_mut() {
+                if v.sig.starts_with("C04/") {
+                    v.sig.push_str("/burst-limited-device");
+                }
+            }
+        }
         out.append(&mut self.pending);
     }
     fn fingerprint(&self) -> u128 {
@@ -508,7 +523,7 @@ impl Harness for Rx {
 pub fn rx_configs(tier: Tier) -> Vec<(RxCfg, usize)> {
     let mut v = vec![];
     let (d_small, d_big) = if tier == Tier::Quick { (6, 3) } else { (9, 4) };
-    let base = RxCfg { name: "srv", rx: 4, l: 6, peer_isn: 0xffff_fffd, server: true, wscale: false, peer_ws: 0, reuse: false, stray: false, bp: false, syn_data: 0 };
+    let base = RxCfg { name: "srv", rx: 4, l: 6, peer_isn: 0xffff_fffd, server: true, wscale: false, peer_ws: 0, reuse: false, stray: false, bp: false, syn_data: 0, burst: None, mtu: 1500 };
     for &(rx, l) in &[(2usize, 6usize), (3, 6), (4, 6), (8, 10), (64, 10)] {
         v.push((RxCfg { rx, l, ..base.clone() }, d_small));
     }
@@ -521,6 +536,8 @@ pub fn rx_configs(tier: Tier) -> Vec<(RxCfg, usize)> {
     // reads whose window update is lost inside the device
     v.push((RxCfg { name: "blocked-window-update", rx: 4, l: 8, bp: true, ..base.clone() }, d_small));
     v.push((RxCfg { name: "blocked-window-update-rx64", rx: 64, l: 130, bp: true, peer_isn: 0x7fff_ffc0, ..base.clone() }, d_small.min(5)));
+    // burst-limited device: the window field on the wire is clamped by the interface
+    v.push((RxCfg { name: "burst1-rx1200-mtu576", rx: 1200, l: 1300, burst: Some(1), mtu: 576, ..base.clone() }, d_small.min(4)));
     // the SYN carries data
     v.push((RxCfg { name: "data-on-syn", rx: 8, l: 10, syn_data: 3, ..base.clone() }, d_small));
     // stray FINs / data reach the listening socket before the handshake
